@@ -267,8 +267,12 @@ def drive(prop, tier, seed, jobs=None, replay=None):
     findings = load_findings()
     hit = collections.OrderedDict()
     new = []
+    other_props = collections.Counter()
     for key, v in sorted(merged.violations.items()):
         rec = v["record"]
+        if rec["property"] != prop:
+            other_props[rec["property"]] += v["count"]      # judged by that property's own check
+            continue
         ent = next((e for e in findings if finding_matches(e, rec)), None)
         if ent is not None:
             h = hit.setdefault(ent["id"], {"entry": ent, "count": 0, "example": None, "keys": 0})
@@ -327,6 +331,7 @@ def drive(prop, tier, seed, jobs=None, replay=None):
           "known_findings_hit": {hid: {"cases": h["count"], "mechanism_keys": h["keys"]} for hid, h in hit.items()},
           "stale_findings": [e["id"] for e in findings if e.get("status") == "open" and e["property"] == prop
                              and e["id"] not in hit and tier in e.get("expected_in", ["quick", "thorough"])],
+          "records_for_other_properties_not_judged_here": dict(other_props),
           "new_violation_keys": [json.loads(k) for k, _ in new][:50],
           "tree": tree_info(), "jobs": jobs, "notes": dict(merged.notes),
           "extra": {k: (v if not isinstance(v, list) else v[:5]) for k, v in merged.extra.items() if not k.startswith("_")}}
